@@ -13,27 +13,33 @@ from tools.lib import core
 PROP = 'C11'
 
 MANIFEST = dict(
-    technique='Coq proof (invariants by induction over the type list and over the index in arbitrary iteration order) about a hand '
-              'model of build_namespace_tree / Namespace enumeration / BFS path lookup / make_path; extracted-model vs. '
-              'implementation correspondence on random type sets, plus real generation runs into a snapshotted sandbox',
-    text='Theorems in coq/theories/Properties/C11.v, for every list of types with distinct (namespace, short name, version) under '
-         'one root, every iteration order of the two hash sets, and stropping injective on the namespace components involved: the '
-         'ancestor index is prefix closed (soundness of the `break`); every non-empty prefix of every type\'s namespace is a node '
-         'exactly once (empty intermediate ones included); child/parent links coincide with the prefix structure; single root '
-         'reached from every node; get_all_types / get_all_datatypes / get_all_namespaces enumerate every type and every namespace '
-         'exactly once; find_output_path_for_type finds every type from every node; the path is outdir / strop(ns)... / '
-         'strop(Short_M_m)+ext, injective under stropping injectivity on the names involved, every component a safe file name '
-         '(inside the output directory); include path = output path relative to outdir. Without stropping injectivity on sibling '
-         'namespaces the enumeration theorem is refuted by witness (known finding F-NS-FOLD). Tie: the extracted model and the real '
-         'build_namespace_tree / DSDLCodeGenerator / nnvg are run on the same random DSDL trees (c, cpp, py; extension / stem / '
-         'stropping overrides; five spellings of the output directory) and compared on node set, links, enumerations, lookup from '
-         'every node, path map, files on disk (parent directory of the output directory snapshotted) and include paths of a type '
-         'referenced from another root namespace.',
+    technique='Coq proof (loop invariants by induction over the type list and over the namespace index in arbitrary iteration order; '
+              'BFS invariant with a ghost visited list) about a hand model of build_namespace_tree / Namespace enumeration / BFS path '
+              'lookup / make_path; extracted-model vs. implementation correspondence on random DSDL trees, plus real generation runs '
+              '(API and nnvg) into a sandbox whose parent directory is snapshotted',
+    text='Theorems in coq/theories/Properties/C11.v, for EVERY list of types with pairwise different (namespace, short name, version) '
+         'under one root, every stropping function, every iteration order of the two kinds of hash sets, every extension / stem / '
+         'output directory: C11_index_prefix_closed (ancestor index = set of non-empty namespace prefixes; soundness of the `break`); '
+         'C11_ns_each_once (every non-empty prefix, empty intermediate namespaces included, is a Namespace object exactly once); '
+         'C11_types_stored_once; C11_links_sound and C11_links_consistent_partial (child/parent links = prefix structure); C11_tree '
+         '(returned root is the one-component namespace, reached by get_root_namespace from every node, only node without parent, '
+         'parents one component shorter: acyclic); C11_types_each_once_partial (get_all_types / get_all_datatypes / get_all_namespaces '
+         'enumerate every type and namespace exactly once); C11_lookup_total_partial (find_output_path_for_type finds every type from '
+         'every node); C11_path_shape, C11_ns_path_shape; C11_path_injective + C11_base_name_injective (distinct types never share a '
+         'file when stropping is injective on the names involved); C11_path_inside_outdir, C11_ns_path_inside_outdir (all components '
+         'below the output directory are safe names, lexical resolution only descends); C11_include_path_eq_output_path. The _partial '
+         'theorems exclude the boolean trigger ns_fold (two different namespaces with the same stropped spelling); '
+         'C11_types_each_once_refuted shows by witness that the faithful model then loses a type (known finding F-NS-FOLD, reproduced on '
+         'the real nnvg). Tie: the extracted model and the real build_namespace_tree / DSDLCodeGenerator / nnvg are run on the same '
+         'random DSDL trees (c, cpp, py; extension / stem / stropping overrides; five spellings of the output directory) and compared on '
+         'node set, links, enumerations, lookup from every node, path map, files on disk and include paths of a type referenced from '
+         'another root namespace; the property oracle (independent Python) is evaluated on every case as the falsifier.',
     note='Trusted: Coq kernel; the hand model Gen/Namespace.v (validated by the correspondence run, not derived from the source); '
-         'namespaces as component lists instead of dot-joined strings; pathlib parsing of the output directory (the model receives '
-         'PurePath(outdir).parts); stropping is an abstract function in the proofs (C09 covers it) and a table taken from the real '
-         'filter_id in the correspondence run; POSIX path semantics for "safe components stay inside the directory" (no symlinks in '
-         'the output tree); extraction (ExtrOcamlBasic) + OCaml driver. Not covered: the empty type list (root namespace ""), '
+         'namespaces as component lists instead of dot-joined strings; pathlib (the model receives PurePath(outdir).parts and '
+         'reproduces with_suffix; joining relative parts is concatenation); pydsdl guarantees (one root, no duplicate definitions); '
+         'stropping is an arbitrary function in the proofs (identifier-likeness and injectivity are hypotheses, C09 covers them) and a '
+         'table taken from the real filter_id in the correspondence run; POSIX lexical resolution without symlinks for "inside the '
+         'output directory"; extraction (ExtrOcamlBasic) + OCaml driver. Not covered: the empty type list (root namespace ""), '
          'support files (C08/C12).',
     design='§5 C11')
 
@@ -176,9 +182,10 @@ def tk(t) -> tuple:
 
 
 def fold_kinds(order: list, strop: dict, es: bool) -> typing.Tuple[bool, bool]:
-    """(sibling namespaces folded onto one identifier [trigger of F-NS-FOLD], two types folded onto one file [documented exception])"""
+    """(two namespaces folded onto one stropped spelling [trigger of F-NS-FOLD], two types folded onto one file [documented exception])"""
     nodes = {tuple(t[0][:i]) for t in order for i in range(1, len(t[0]) + 1)}
-    sib = collections.Counter((k[:-1], strop.get(k[-1], k[-1])) for k in nodes)
+    # same predicate as NamespaceSpec.ns_fold: two different namespaces with the same stropped spelling
+    sib = collections.Counter(tuple(strop.get(c, c) for c in k) for k in nodes)
     ns_fold = any(v > 1 for v in sib.values())
     ps = (lambda x: strop.get(x, x)) if es else (lambda x: x)
     files = collections.Counter((tuple(ps(c) for c in t[0]), ps('%s_%d_%d' % (t[1], t[2], t[3]))) for t in order)
@@ -317,7 +324,7 @@ def dec_ty(s: str) -> tuple:
     return (dec_key(k), dec(sh), int(ma), int(mi))
 
 
-MODES = [(0, 0), (1, 1), (2, 3), (3, 2)]
+MODES = [(0, 0), (1, 1), (2, 3), (3, 2), (4, 0)]   # the last one replays the linking order observed on the implementation
 
 
 def model_input(r: dict, mode) -> str:
@@ -327,17 +334,21 @@ def model_input(r: dict, mode) -> str:
             lines.append('S %s %s' % (enc(a), enc(b)))
     for t in r['order']:
         lines.append('T ' + enc_ty(t))
+    for n in r['nodes']:     # namespaces reachable from the root of the implementation's tree: linked before their folded twins
+        lines.append('P ' + enc_key(n['key']))
     lines.append('GO')
     return '\n'.join(lines) + '\n'
 
 
 def parse_model(block: typing.List[str]) -> dict:
     res = {'root': None, 'nodes': {}, 'all': collections.Counter(), 'datatypes': collections.Counter(), 'namespaces': collections.Counter(),
-           'find': {}, 'make_path': {}, 'rel': {}, 'err': None, 'all_seq': []}
+           'find': {}, 'make_path': {}, 'rel': {}, 'err': None, 'all_seq': [], 'fold': None}
     for l in block:
         t = l.split(' ')
         if t[0] == 'ROOT':
             res['root'] = dec_key(t[1])
+        elif t[0] == 'FOLD':
+            res['fold'] = t[1] == '1'
         elif t[0] == 'NODE':
             res['nodes'][dec_key(t[1])] = {'parent': dec_key(t[2]) if t[2] != '-' else None,
                                           'children': sorted(dec_key(c) for c in t[3].split(';')) if t[3] != '-' else [],
@@ -423,7 +434,7 @@ def model_diff(m: dict, c: dict) -> typing.List[str]:
 
 # ---- running the implementation -------------------------------------------------------------------------------------
 def run_impl(cases: typing.List[dict], workers: int = 0) -> typing.List[dict]:
-    workers = workers or min(core.NPROC, 16, max(1, len(cases) // 4))
+    workers = workers or min(core.NPROC, 8, max(1, len(cases) // 4))
     work = core.scratch('nnvverif-c11-')
     chunks = [cases[i::workers] for i in range(workers)]
 
@@ -434,7 +445,10 @@ def run_impl(cases: typing.List[dict], workers: int = 0) -> typing.List[dict]:
         w = os.path.join(work, 'w%d' % i)
         os.makedirs(w, exist_ok=True)
         p = core.run([core.PY, os.path.join(core.VERIF, 'tools', 'harness', 'c11_impl.py')],
-                     input=json.dumps({'work': w, 'cases': chunk}), env=core.repo_env(), timeout=1500, cwd=w)
+                     input=json.dumps({'work': w, 'cases': chunk}),
+                     # a different hash seed per worker: the iteration order of namespace_index / _nested_namespaces (the
+                     # `perm` / `cperm` of the theorems) really varies between cases
+                     env=core.repo_env({'PYTHONHASHSEED': str(1 + 7 * i)}), timeout=1500, cwd=w)
         try:
             res = json.loads(p.stdout[p.stdout.rindex('{"out"'):])['out']
         except Exception:
@@ -469,17 +483,31 @@ def judge(case: dict, r: dict, kf_live: bool, models: typing.Optional[typing.Lis
     c = canon_impl(r)
     if models is not None:
         diffs = [model_diff(m, c) for m in models]
-        if ns_fold:
-            # which sibling survives depends on set iteration order: the implementation must agree with SOME order of the model
-            if kf_live and all(diffs):
-                v['model'] = ['no iteration order of the model reproduces the implementation: ' + '; '.join(diffs[0])]
+        if any(m['fold'] is not None and m['fold'] != ns_fold for m in models):
+            v['model'] = ['trigger predicate: Coq ns_fold = %r, checker = %r' % (models[0]['fold'], ns_fold)]
+        elif ns_fold:
+            # which namespace survives depends on the iteration order of namespace_index: the model replaying the observed
+            # order (last mode) must reproduce the implementation exactly
+            if kf_live and diffs[-1]:
+                v['model'] = ['the quirk-faithful model (observed linking order) does not reproduce the implementation: ' + '; '.join(diffs[-1])]
         else:
+            # the theorems say the result does not depend on the iteration orders: every order must agree
             bad = [d for d in diffs if d]
             if bad:
                 v['model'] = bad[0]
     if od:
         if ns_fold and kf_live and models is not None and not v['model']:
             v['kf'] = True   # trigger satisfied and the quirk-faithful model reproduces the behaviour
+            if 'new_files' in r and not r.get('with_support'):
+                # files on disk are then judged against the quirk model's enumeration instead of the oracle
+                m = models[-1]
+                exp = {rel_to_sandbox(p, r['outdir_spelled']) for (_, p) in m['datatypes']}
+                if r.get('generate_namespace_types'):
+                    exp |= {rel_to_sandbox(p, r['outdir_spelled']) for (_, p) in m['namespaces']}
+                if set(r['new_files']) != exp:
+                    v['kf'] = False
+                    v['oracle'] = ['files on disk differ from the quirk-faithful model: missing %r, unexpected %r'
+                                   % (sorted(exp - set(r['new_files'])), sorted(set(r['new_files']) - exp))]
         elif ns_fold and kf_live and models is None:
             v['kf'] = True
         else:
@@ -619,6 +647,10 @@ def main(chk: core.Check, replay: typing.Optional[str] = None) -> int:
         r['lang'] = c['lang']
         return bool(judge(c, r, kf_live, None)['oracle'])
 
+    if replay and len(cases) == 1:
+        print('REPLAY case=%s lang=%s types=%r' % (cases[0]['id'], cases[0]['lang'], cases[0]['types']))
+        print('  property oracle vs implementation: %s' % ('; '.join(bad_oracle[0][1][:6]) if bad_oracle else 'agree'))
+        print('  model vs implementation: %s' % ('; '.join(map(str, bad_model[0][1][:6])) if bad_model else 'agree'))
     if os.environ.get('C11_DEBUG'):
         for i, why in bad_oracle[:40]:
             print('ORACLE', cases[i]['id'], cases[i]['lang'], impl[i].get('tb', ''), why[:3])
